@@ -305,6 +305,15 @@ class FnTranslator:
         raise TranslationError("unsupported statement: " + ast.unparse(s).splitlines()[0])
 
 
+
+def _rel_source(path: object) -> str:
+    """source path as written into generated headers: relative to the repository root (`xdsl/...`), so that the
+    generated text depends on the code only, not on where the tree is checked out"""
+    t = str(path)
+    k = t.rfind("/xdsl/")
+    return t[k + 1:] if k >= 0 else t
+
+
 def _needs_option(fn: ast.FunctionDef) -> bool:
     for n in ast.walk(fn):
         if isinstance(n, ast.Raise):
@@ -356,7 +365,7 @@ def translate_function(tree: ast.Module, spec: FnSpec, known: dict[str, tuple[st
 
 def lean_module(namespace: str, imports: list[str], defs: list[str], source_files: list[str]) -> str:
     hdr = "".join(f"import {i}\n" for i in imports)
-    hdr += "/-! GENERATED by harness/translate/py2lean.py from:\n" + "".join(f"  {s}\n" for s in source_files) + "Do not edit; regenerated on every check run. -/\n"
+    hdr += "/-! GENERATED by harness/translate/py2lean.py from:\n" + "".join(f"  {_rel_source(s)}\n" for s in source_files) + "Do not edit; regenerated on every check run. -/\n"
     hdr += "set_option linter.unusedVariables false\n"
     hdr += f"namespace {namespace}\nopen Xdsl\n\n"
     return hdr + "\n".join(defs) + f"\nend {namespace}\n"
